@@ -2107,7 +2107,7 @@ def check_failops(ctx, rep, rng, count):
 
 
 def _run_parts(ctx, rep):
-    """Workers 0-5: the parts (A)-(D), (E), (G), (H), (J), (K); the other workers: part (I).  With fewer than eight
+    """Workers 0-4: the parts (A)-(D), (E), (G), (H), (J)+(K); the other workers: part (I).  With fewer than seven
     workers: everything in a row in worker 0."""
     quick = ctx.tier == 'quick'
     n_i = (5000 if quick else 90000) * ctx.scale
@@ -2173,7 +2173,12 @@ def part_k(ctx, rep):
     ar.check_name_forms(ctx, rep, ctx.sub_rng('name-forms'), (350 if ctx.tier == 'quick' else 7000) * ctx.scale)
 
 
-LEGACY = [legacy_ad, legacy_e, legacy_g, legacy_h, part_j, part_k]
+def part_jk(ctx, rep):
+    part_j(ctx, rep)
+    part_k(ctx, rep)
+
+
+LEGACY = [legacy_ad, legacy_e, legacy_g, legacy_h, part_jk]
 
 
 def run(ctx, rep):
